@@ -1,14 +1,12 @@
 #!/bin/bash
-# Must-pass corpus: harmless edits must NOT raise an alarm (all 19 checks exit 0).
+# Must-pass corpus: behaviour-preserving edits (selftest/mustpass/*.diff) must NOT raise an alarm.
+# Known, documented exceptions are listed in selftest/mustpass/EXPECTED_ALARMS (one diff name per line).
 cd /verif
+quiet=0; alarm=0; expected=0
 for f in selftest/mustpass/*.diff; do
-  sc=$(mktemp -d /tmp/mptry.XXXXXX); rsync -a --exclude .git /repo/ $sc/
-  (cd $sc && patch -p1 -s --no-backup-if-mismatch < /verif/$f) || { echo "PATCH? $f"; rm -rf $sc; continue; }
-  (cd $sc && GOFLAGS=-mod=mod GOPROXY=off GOSUMDB=off GOTOOLCHAIN=local go build ./... ) || { echo "NOBUILD $f"; rm -rf $sc; continue; }
-  bad=""
-  for p in C02 C03 C04 C05 C06 C07 C08 C09 C10 C11 C12 C13 C14 C15 C16 C17 C18 C19 C20; do
-    ${GOVC:-/verif/bin/govc} check $p --repo $sc --no-evidence >/tmp/mp.out 2>&1 || bad="$bad $p:$(grep '^FAILED' /tmp/mp.out | head -1 | cut -c8-90)"
-  done
-  rm -rf $sc
-  if [ -z "$bad" ]; then echo "QUIET  $f"; else echo "ALARM  $f ::$bad"; fi
+  out=$(tools/mustpass_one.sh /verif/$f 2>&1 | tail -1)
+  if echo "$out" | grep -q '^QUIET'; then quiet=$((quiet+1)); echo "$out" | cut -c1-120
+  elif grep -qx "$(basename $f)" selftest/mustpass/EXPECTED_ALARMS 2>/dev/null; then expected=$((expected+1)); echo "EXPECTED-$out" | cut -c1-260
+  else alarm=$((alarm+1)); echo "$out" | cut -c1-400; fi
 done
+echo "must-pass: quiet=$quiet expected-alarms=$expected unexpected-alarms=$alarm"
